@@ -68,13 +68,15 @@ def forLoop {m : Type → Type} [Monad m] {α σ ρ : Type} : List α → σ →
     | Sum.inl r => pure r
     | Sum.inr s' => forLoop xs s' body k
 
-/-- `while True: body`, at most `fuel` rounds (`none` when the fuel runs out: never a Python outcome) -/
-def whileLoop {σ ρ : Type} : Nat → σ → (σ → Sum ρ σ) → Option ρ
-  | 0, _, _ => none
-  | fuel + 1, s, body =>
-    match body s with
-    | Sum.inl r => some r
-    | Sum.inr s' => whileLoop fuel s' body
+/-- `while True: body`, at most `fuel` rounds; the body answers `Sum.inl r` for `return r` and `Sum.inr s` with the loop-carried
+variables when it falls off its end.  `dflt` is what the model answers when the fuel runs out (never a Python outcome; the callers
+give fuel that suffices) -/
+def whileLoop {m : Type → Type} [Monad m] {σ ρ : Type} : Nat → σ → (σ → m (Sum ρ σ)) → (σ → m ρ) → m ρ
+  | 0, s, _, dflt => dflt s
+  | fuel + 1, s, body, dflt => do
+    match ← body s with
+    | Sum.inl r => pure r
+    | Sum.inr s' => whileLoop fuel s' body dflt
 
 /-- Python truth value of the few types that occur in conditions of the translated functions -/
 class Truthy (α : Type) where
